@@ -181,7 +181,7 @@ def generate(run_index, seed, tier):
                 near = ["1.0", "02", "1e1", " go", "GO"] if any(k in cols[c]["entries"] for k in ("1", "2", "10")) else [" go", "GO"]
                 row[c] = g.pick(sorted(cols[c]["entries"]) * 2 + ["n/a", "n/a", "", "unknownkey", g.pick(near)])
             elif kinds[c] == "value":
-                row[c] = g.pick(["5", "abc", "17", "n/a", "n/a", ""])
+                row[c] = g.pick(["5", "abc", "17", "n/a", "n/a", "", "faces\\new01.png", "stim\\dog.png"])   # text is text
             else:
                 row[c] = g.pick(["foo", "n/a"])
         rows.append([row[c] for c in order])
